@@ -48,7 +48,7 @@ def op_term(o):
         return "OStop RNone" if o[1] is None else f"OStop (RUser {o[1]})"
     if k == "adv":
         return f"OAdv {o[1]}"
-    return {"kill": "OKill", "drain": "ODrain", "settle": "OSettle", "probe": "OProbe"}[k]
+    return {"kill": "OKill", "drain": "ODrain", "settle": "OSettle", "probe": "OProbe", "open": "OOpen"}[k]
 
 
 def ops_term(ops):
@@ -137,6 +137,56 @@ def gen_random_case(rng):
         if ok:
             return ops
     return [("mk", "a", 0), ("probe",)]
+
+
+def gen_parked_case(rng):
+    """target still inside pre_start (status Starting) until `open`: no kill / drain / kill_after
+    before the gate opens (a kill during pre_start is not reported to the supervisor and a drain
+    there is outside the timer property)"""
+    for _ in range(50):
+        ops = gen_random_case(rng)
+        if any(o[0] == "mk" and o[1] == "k" for o in ops):
+            continue
+        pos = rng.randrange(0, len(ops) + 1) if rng.random() < 0.85 else None
+        out = []
+        for i, o in enumerate(ops):
+            if pos is not None and i == pos:
+                out.append(("open",))
+            if (pos is None or i < pos) and o[0] in ("kill", "drain"):
+                continue
+            out.append(o)
+        if pos is not None and pos == len(ops):
+            out.append(("open",))
+        if rng.random() < 0.5:
+            out.append(("probe",))
+        return out
+    return [("mk", "a", 0), ("open",), ("probe",)]
+
+
+def gen_parked_systematic():
+    cases = []
+    for kind in "aie":
+        for dur in ([MS, 250_000] if kind == "i" else [0, 1, MS]):
+            fire = ceil_ms(dur)
+            for act in (("abort", 0), ("stop", None), ("stop", 7), None):
+                for openpos in ("before", "at-raw", "at-settled", "after", "never"):
+                    ops = [("mk", kind, dur)]
+                    if openpos == "before":
+                        ops.append(("open",))
+                    if fire:
+                        ops.append(("adv", fire))
+                    if openpos == "at-raw":
+                        ops.append(("open",))
+                    if openpos == "at-settled":
+                        ops += [("settle",), ("open",)]
+                    if act:
+                        ops.append(act)
+                    ops += [("probe",), ("adv", MS)]
+                    if openpos == "after":
+                        ops.append(("open",))
+                    ops += [("probe",), ("adv", 2 * MS), ("probe",)]
+                    cases.append(ops)
+    return cases
 
 
 def gen_exhaustive():
@@ -283,21 +333,38 @@ def run(chk):
                           failing_input=False)
             break
 
-    cases = load_corpus()
+    cases = [(False, c) for c in load_corpus()]
     n_corpus = len(cases)
-    cases += gen_exhaustive()
+    cases += [(False, c) for c in gen_exhaustive()]
+    cases += [(True, c) for c in gen_parked_systematic()]
     n_exh = len(cases) - n_corpus
     n_rand = (1500 if quick else 20000) * factor
-    for _ in range(n_rand):
-        cases.append(gen_random_case(chk.rng))
+    for k in range(n_rand):
+        if k % 5 == 4:
+            cases.append((True, gen_parked_case(chk.rng)))
+        else:
+            cases.append((False, gen_random_case(chk.rng)))
+    pks = [pk for pk, _ in cases]
 
-    lines = [" ; ".join(op_line(o) for o in ops) for ops in cases]
+    def settle_after_open(ops):
+        # the gate's effect (Starting -> Running) takes place when the target's task runs: keep
+        # kill / drain away from that window (a kill during startup is not reported to the supervisor)
+        out = []
+        for o in ops:
+            out.append(o)
+            if o[0] == "open":
+                out.append(("settle",))
+        return out
+    cases = [settle_after_open(c) for _, c in cases]
+    PK = lambda i: "true" if pks[i] else "false"
+
+    lines = [("S|" if pks[i] else "") + " ; ".join(op_line(o) for o in ops) for i, ops in enumerate(cases)]
     impl = run_harness(build, "eng_timer", lines, shards=min(NCPU, 8))
     impl_t = [parse_term(x) for x in impl]
-    exprs = [f"observe {ops_term(ops)}" for ops in cases]
-    exprs += [f"check_C12 {ops_term(ops)} ({impl[i]})" for i, ops in enumerate(cases)]
+    exprs = [f"observe {PK(i)} {ops_term(ops)}" for i, ops in enumerate(cases)]
+    exprs += [f"check_C12 {PK(i)} {ops_term(ops)} ({impl[i]})" for i, ops in enumerate(cases)]
     # the oracle must accept the model's own observation (C12_oracle_sound is OPEN: checked here per scenario)
-    exprs += [f"check_C12 {ops_term(ops)} (observe {ops_term(ops)})" for ops in cases]
+    exprs += [f"check_C12 {PK(i)} {ops_term(ops)} (observe {PK(i)} {ops_term(ops)})" for i, ops in enumerate(cases)]
     model = coq_eval("C12", IMPORTS, exprs)
     n = len(cases)
     model_t = [parse_term(x) for x in model[:n]]
@@ -314,6 +381,7 @@ def run(chk):
     for i, ops in enumerate(cases):
         chk.coverage["evaluations"] += 1
         mv, iv = canon_obs(model_t[i]), canon_obs(impl_t[i])
+        chk.count("target." + ("starting(parked in pre_start)" if pks[i] else "running"))
         for o in ops:
             chk.count("op." + (o[0] + "." + o[1] if o[0] == "mk" else o[0]))
         if isinstance(iv, tuple) and iv[0] == "mkObs":
